@@ -80,12 +80,12 @@ type Field struct {
 }
 
 type Struct struct {
-	Name    string   `json:"name"`
-	Pkg     string   `json:"pkg"`
-	File    string   `json:"file"`
-	Fields  []Field  `json:"fields"`
-	IsError bool     `json:"is_error,omitempty"` // embeds `error`
-	Desc    string   `json:"desc,omitempty"`
+	Name    string  `json:"name"`
+	Pkg     string  `json:"pkg"`
+	File    string  `json:"file"`
+	Fields  []Field `json:"fields"`
+	IsError bool    `json:"is_error,omitempty"` // embeds `error`
+	Desc    string  `json:"desc,omitempty"`
 }
 
 type Enum struct {
@@ -112,9 +112,9 @@ type Alias struct {
 type Project struct {
 	// Mod is the import-path prefix of the project's packages ("" = "simproj"); Hook the import
 	// path of the simhook package; OpPrefix is prepended to "Controller.Method" in hook calls.
-	Mod      string `json:"mod,omitempty"`
-	Hook     string `json:"hook,omitempty"`
-	OpPrefix string `json:"op_prefix,omitempty"`
+	Mod         string       `json:"mod,omitempty"`
+	Hook        string       `json:"hook,omitempty"`
+	OpPrefix    string       `json:"op_prefix,omitempty"`
 	Seed        uint64       `json:"seed"`
 	Profile     string       `json:"profile"`
 	Schemes     []string     `json:"schemes"`
@@ -130,6 +130,8 @@ type Project struct {
 	Aliases     []Alias      `json:"aliases,omitempty"`
 	// ControllerGlobs as written in the config (relative to the project root)
 	Globs []string `json:"globs"`
+	// ImportStyles: source files import model packages plainly, under a custom name or with a dot (per file)
+	ImportStyles bool `json:"import_styles,omitempty"`
 	// PartialGlobs: the globs select only some files of a controller package
 	PartialGlobs bool `json:"partial_globs,omitempty"`
 	// Extensions: names of routes-template extension hooks the configuration fills with a comment line
